@@ -7,7 +7,7 @@ CHECKS = {
                 "(debug on/off), sequential and dask observation; the call log of tracing probes must equal the reference list built from a "
                 "literal copy of the group order. All 45 group pairs x 3 enabled patterns x 2 renderings are enumerated on every run. Exploration, no absence claim.",
         "design_ref": "DESIGN.md section 3, C01",
-        "note": "Trusted: the probe's own logging; the literal group-order tuple copied from the property statement. The dask path's single eager metadata run is allowed. Entries: pyxel.run_mode (exposure, debug, sequential / dask observation, calibration) and the older pyxel.exposure_mode / pyxel.observation_mode; re-runs of the same pipeline object after its enabled flags were edited. A model entry may be listed again in another group; the YAML rendering then writes it once and refers to it by an alias.",
+        "note": "Trusted: the probe's own logging; the literal group-order tuple copied from the property statement. The dask path's single eager metadata run is allowed. Entries: pyxel.run_mode (exposure, debug, sequential / dask observation, calibration) and the older pyxel.exposure_mode / pyxel.observation_mode; re-runs of the same pipeline object after its enabled flags were edited. A model entry may be listed again in another group; the YAML rendering then writes it once and refers to it by an alias. A third of the probes declare parameters with defaults and are configured with None / falsy / other values for every one of them.",
     },
     "C02": {
         "technique": "property-based testing: generated schedules x renderings x write plans x detector histories with clock-and-bucket probes (reference clock computed in the harness); invalid schedules by mutation through 7 entry points",
@@ -24,7 +24,7 @@ CHECKS = {
                 "labels/dtypes are checked, layouts and debug on/off must agree, and every debug record is checked for soundness and completeness "
                 "against before/after snapshots of each writer. Exploration.",
         "design_ref": "DESIGN.md section 3, C03",
-        "note": "Trusted: snapshot probes (public API reads). Known finding K4 (uint64 > 2^53) is excluded from the main generator and probed separately. Float buckets also carry nan / inf frames; a bucket may be updated in place by a second model of the same step. Debug records are checked for soundness, completeness and minimality (a bucket neither the model nor the preceding reset touched must not be recorded; frames containing NaN excepted). A third of the multi-wavelength cubes carry 'y' / 'x' positions of their own (the result must still be labelled with row / column indices).",
+        "note": "Trusted: snapshot probes (public API reads). Known finding K4 (uint64 > 2^53) is excluded from the main generator and probed separately. Float buckets also carry nan / inf frames; a bucket may be updated in place by a second model of the same step. Debug records are checked for soundness, completeness and minimality (a bucket neither the model nor the preceding reset touched must not be recorded; frames containing NaN excepted). A third of the multi-wavelength cubes carry 'y' / 'x' positions of their own (the result must still be labelled with row / column indices). Exposures of 31..100 readouts (around and at multiples of 32 and 50) are enumerated on every run.",
     },
     "C15": {
         "technique": "property-based testing of the listed library models with generated frames/parameters against accounting oracles (exact identity, min, idempotence, kernel sum, conservation invariants), repeated over generated steps",
@@ -49,7 +49,7 @@ CHECKS = {
                 "final pixel frame must equal the single-readout frame, intermediate readouts must be proportional to elapsed time, destructive frames "
                 "proportional to their own duration, and scaling all intervals must scale all frames. Exploration.",
         "design_ref": "DESIGN.md section 3, C17",
-        "note": "Relative tolerance 1e-12 x readouts. Trusted: numpy for the comparison; the relation itself needs no reference implementation. All four detector types; random and evenly spaced partitions. load_image is drawn with and without convert_to_photons.",
+        "note": "Relative tolerance 1e-12 x readouts. Trusted: numpy for the comparison; the relation itself needs no reference implementation. All four detector types; random and evenly spaced partitions. load_image is drawn with and without convert_to_photons. A third of the cases run every exposure on objects that have already been through it once.",
     },
     "C13": {
         "technique": "model-based property testing of generated operation sequences (Hypothesis) against a reference container model",
@@ -90,7 +90,7 @@ CHECKS = {
                 "Generated documents (4 detector types, exposure/observation, schedules in 12 renderings, numpy-expression parameter values, probe pipelines with arbitrary arguments, permuted keys) are loaded "
                 "and every attribute is compared with the document; running the loaded objects must equal running Python-built objects. All documents with 0 or >=2 modes/detectors must be refused.",
         "design_ref": "DESIGN.md section 3, C12",
-        "note": "Range table transcribed from docstrings and error messages. Calibration documents are exercised by C10/C11. A refused change through attribute, key or sweep must leave the long-lived object exactly as it was. For nan the check asserts only that every path gives the constructor's verdict (finding F39, fixed).",
+        "note": "Range table transcribed from docstrings and error messages. Calibration documents are exercised by C10/C11. A refused change through attribute, key or sweep must leave the long-lived object exactly as it was. For nan the check asserts only that every path gives the constructor's verdict (finding F39, fixed). The count part enumerates every subset of modes x detectors and pairs whose second section has no body.",
     },
     "C08": {
         "technique": "property-based testing: keys enumerated from generated processors (valid) and derived by mutation (invalid); full-settings snapshot before/after each assignment; harness's own literal-denotation parser as reference; every entry point exercised for invalid keys",
@@ -98,7 +98,7 @@ CHECKS = {
                 "the snapshot of all settings must change in exactly that key to the value the text literally denotes, get/has must agree. Mutated keys must be refused by Processor.set, "
                 "sequential and dask observations (product/sequential), and run_mode overrides before any probe model runs and without inventing attributes; sweeping an argument of a disabled model must raise. Exploration.",
         "design_ref": "DESIGN.md section 3, C08",
-        "note": "Ambiguous textual spellings (quotes, blanks, hex, True/None) are not generated. Calibration entry point for invalid keys is exercised in C10. Part 'nested': keys inside mapping- / list-of-mappings-valued arguments over a generated history of set / replace / create_new_processor / deepcopy on a pool of processors (finding F35, fixed). The nested part also issues misspelt nested keys, which set / replace must refuse. List values draw explicit zero elements (falsy but valid). For a model's enabled flag the texts 'True' / 'False' are assigned too (what a command-line override passes).",
+        "note": "Ambiguous textual spellings (quotes, blanks, hex, True/None) are not generated. Calibration entry point for invalid keys is exercised in C10. Part 'nested': keys inside mapping- / list-of-mappings-valued arguments over a generated history of set / replace / create_new_processor / deepcopy on a pool of processors (finding F35, fixed). The nested part also issues misspelt nested keys, which set / replace must refuse. List values draw explicit zero elements (falsy but valid). For a model's enabled flag the texts 'True' / 'False' are assigned too (what a command-line override passes). List texts with quoted elements denote lists of strings.",
     },
     "C05": {
         "technique": "property-based testing: generated parameter spaces (product / sequential / custom, scalar and vector parameters, colliding names, numpy expressions, disabled parameters) against itertools reference enumerators; echo probes encode received values so that label-based selection is checkable",
@@ -106,7 +106,7 @@ CHECKS = {
                 "the reference space and, for each reference run, the result entry selected by that run's labels must hold that run's encoding. Custom tables are generated in txt/csv/npy with "
                 "surrounding columns and optional column_range. Exploration.",
         "design_ref": "DESIGN.md section 3, C05",
-        "note": "Known finding K1 (sequential mode + dask + >=2 parameters) is excluded from the generator and probed separately. The dask path's single metadata run is subtracted. Part 'rerun': the same Observation object is run again after other values were configured on detector / pipeline. An enumerated part gives value lists as short numpy expressions denoting 21..25 values; the spaces also contain a text-valued argument and an entry inside a mapping-valued argument. Two expressions of tiny magnitudes (1e-16..1e-10) are enumerated.",
+        "note": "Known finding K1 (sequential mode + dask + >=2 parameters) is excluded from the generator and probed separately. The dask path's single metadata run is subtracted. Part 'rerun': the same Observation object is run again after other values were configured on detector / pipeline. An enumerated part gives value lists as short numpy expressions denoting 21..25 values; the spaces also contain a text-valued argument and an entry inside a mapping-valued argument. Two expressions of tiny magnitudes (1e-16..1e-10) are enumerated. Custom mode includes tables of text cells only (a text-valued parameter).",
     },
     "C06": {
         "technique": "differential property-based testing: each run of a generated sweep against a standalone exposure the harness builds from the JSON spec; deep structural before/after snapshots of the caller's objects; pipelines with state-keeping, argument-mutating and failing models",
@@ -123,7 +123,7 @@ CHECKS = {
                 "executed: the call or compute() must raise with the unique token, the injected type, group and model name and (sequentially) the run's parameter values; no result object, no later call, "
                 "no computable bucket of the failing run. Fault enumeration: complete per configuration, configurations sampled.",
         "design_ref": "DESIGN.md section 3, C09",
-        "note": "Calibration-phase faults are enumerated in the calibration part once registered. The dask metadata run may surface the fault at run_mode. Entry points: pyxel.run_mode, pyxel.run(<yaml>) with and without an outputs section, pyxel.exposure_mode / observation_mode (finding F36, fixed; the parameter-value note is asserted only behind run_mode / run, where the property places it). A third of the configurations raise the very same exception object at every site. A third of the configurations set a working directory on the running mode.",
+        "note": "Calibration-phase faults are enumerated in the calibration part once registered. The dask metadata run may surface the fault at run_mode. Entry points: pyxel.run_mode, pyxel.run(<yaml>) with and without an outputs section, pyxel.exposure_mode / observation_mode (finding F36, fixed; the parameter-value note is asserted only behind run_mode / run, where the property places it). A third of the configurations raise the very same exception object at every site. A third of the configurations set a working directory on the running mode. Exception classes include one whose constructor arguments are not its args and a FileNotFoundError carrying a file name.",
     },
     "C19": {
         "technique": "property-based testing of generated start histories with a harness-owned clock (same-second starts constructed), barrier-released concurrent starts and pre-populated colliding names; read-back differential of every reported file against the result bucket with the same label; before/after content hash of pre-existing files",
@@ -131,7 +131,7 @@ CHECKS = {
                 "directories and a plain file with the next candidate names; the clock inside pyxel.outputs is replaced so that timestamps are equal or increasing as generated, and groups of starts run concurrently in "
                 "threads. Each start must get a fresh distinct folder, nothing pre-existing may change, every reported file must exist, sit in its run's folder and (fits/npy) equal the labelled bucket, counts must match. Exploration.",
         "design_ref": "DESIGN.md section 3, C19",
-        "note": "The fake clock is installed from outside (attribute of pyxel.outputs.outputs) in the check's own process; no source hook. jpg: existence only. Part 'legacy_exposure': auto-numbered per-readout files of pyxel.exposure_mode for 1..14 readouts. A quarter of the starts first load a raw unsigned 16-bit FITS frame with include_header (its scaling keywords end up on the detector). Part 'legacy_observation': per-run files of pyxel.observation_mode, sequentially and under a thread pool with data-dependent delays.",
+        "note": "The fake clock is installed from outside (attribute of pyxel.outputs.outputs) in the check's own process; no source hook. jpg: existence only. Part 'legacy_exposure': auto-numbered per-readout files of pyxel.exposure_mode for 1..14 readouts. A quarter of the starts first load a raw unsigned 16-bit FITS frame with include_header (its scaling keywords end up on the detector). Part 'legacy_observation': per-run files of pyxel.observation_mode, sequentially and under a thread pool with data-dependent delays. A quarter of the sequential starts are repeated on the same objects after their save list was replaced.",
     },
     "C10": {
         "technique": "property-based testing against a reference model of the decision-vector <-> parameter mapping (bounds, log10 / 10** conversion, slicing) at the pygmo-problem level, plus box / applied-values invariants over the evaluation log of real calibration runs",
@@ -139,7 +139,7 @@ CHECKS = {
                 "receives for decision vectors in the box and at its corners are compared with the harness's reference; short sade / sga / nlopt runs (1..2 islands, topologies, seeds) must keep every evaluation and "
                 "every reported champion / best decision inside the declared box, report parameters == convert(decision), report champions that were really evaluated, and leave the caller's objects unchanged. Exploration.",
         "design_ref": "DESIGN.md section 3, C10",
-        "note": "The problem object is built exactly as Calibration.run_calibration builds it. Synchronous dask scheduler (schedulers are C07's subject). Half of the run cases run the same objects a second time; the champions' returned data is compared with the probe's analytic frame for the reported parameters (finding F34, fixed). A third of the vector variables are declared with a tuple of placeholders (Python API). Vector variables may have exactly one placeholder.",
+        "note": "The problem object is built exactly as Calibration.run_calibration builds it. Synchronous dask scheduler (schedulers are C07's subject). Half of the run cases run the same objects a second time; the champions' returned data is compared with the probe's analytic frame for the reported parameters (finding F34, fixed). A third of the vector variables are declared with a tuple of placeholders (Python API). Vector variables may have exactly one placeholder. Logarithmic boundaries reach down to 1e-20.",
     },
     "C11": {
         "technique": "property-based testing against a numpy re-implementation of the three fitness functions on analytically recomputed simulated data; accept/reject classification of generated fit-range pairs; re-simulation differential of reported champions in real runs",
@@ -156,7 +156,7 @@ CHECKS = {
                 "4 listed as skipped) must be reproducible and state-preserving; generated pipelines of the stochastic library models with a pipeline_seed must give bit-identical result trees in exposure, sequential and dask "
                 "observation and calibration from different prior states, after unseeded or failing runs, and restore the generator also when a model raises; unseeded random models must not re-seed the process. Exploration.",
         "design_ref": "DESIGN.md section 3, C04",
-        "note": "Dask paths on the synchronous scheduler (threaded race = C07's known finding K2). Every model with a seed argument has a recipe (17 models, 34 option variants incl. charge_deposition with tabulated spectra, cosmix, nghxrg), each option variant taking another random-number path. pulse_processing's minutes-long phase conversion is stubbed from outside. The ends of both seed ranges (pipeline_seed 0 / 2^32-1, pygmo_seed 0 / 1 / 100000) are enumerated for calibration. Half of the run cases repeat the run on the very same detector / pipeline / mode objects instead of rebuilding them. A third of the 'runs' cases write outputs into one parent folder (the second start finds the first one's folder name taken).",
+        "note": "Dask paths on the synchronous scheduler (threaded race = C07's known finding K2). Every model with a seed argument has a recipe (17 models, 34 option variants incl. charge_deposition with tabulated spectra, cosmix, nghxrg), each option variant taking another random-number path. pulse_processing's minutes-long phase conversion is stubbed from outside. The ends of both seed ranges (pipeline_seed 0 / 2^32-1, pygmo_seed 0 / 1 / 100000) are enumerated for calibration. Half of the run cases repeat the run on the very same detector / pipeline / mode objects instead of rebuilding them. A third of the 'runs' cases write outputs into one parent folder (the second start finds the first one's folder name taken). Every seeded model is also called on a detector standing at the second of three readouts.",
     },
     "C07": {
         "technique": "differential property-based testing: with_dask result under generated schedulers (synchronous, thread pools of 1/2/4/16, process pools of 2/4) with data-dependent delays vs the sequential result, compared label by label; harness-owned schedule (barrier) for the known seeding race; calibration outcome differential across schedulers and island-creation modes",
@@ -164,6 +164,6 @@ CHECKS = {
                 "outputs on or off: every bucket and every reported file must agree with the sequential result at the same label. Calibrations with fixed seeds (1..3 unconnected islands) must report identical champions under the "
                 "synchronous scheduler, thread pools of 4 and 16 and with serial island creation. Exploration: free-running pools are sampled, the oracle is schedule independent.",
         "design_ref": "DESIGN.md section 3, C07",
-        "note": "Known findings K1 (sequential mode, >=2 parameters) and K2 (seeded stochastic pipelines under threads; made deterministic with a barrier) are excluded from the generator and probed. Connected island topologies use pygmo's asynchronous migration and are not asserted. Part 'short_name_collisions' enumerates every declaration order of two parameters sharing a short name and a third one. A quarter of the pipelines contain a model that keeps memory on the detector.",
+        "note": "Known findings K1 (sequential mode, >=2 parameters) and K2 (seeded stochastic pipelines under threads; made deterministic with a barrier) are excluded from the generator and probed. Connected island topologies use pygmo's asynchronous migration and are not asserted. Part 'short_name_collisions' enumerates every declaration order of two parameters sharing a short name and a third one. A quarter of the pipelines contain a model that keeps memory on the detector. Every pipeline also lists a disabled model that would change the pixels (it must stay off in every worker).",
     },
 }
